@@ -11,6 +11,7 @@ import TaskctlVerif.Model.Capture
 import TaskctlVerif.Model.Imports
 import TaskctlVerif.Model.Refs
 import TaskctlVerif.Model.Loader
+import TaskctlVerif.Model.Output
 /-!
 Line-protocol oracle: one case per line on stdin (`<family> <payload>`), one observation per line on
 stdout.  Compiled from exactly the definitions the theorems are about (core Lean only).
@@ -333,6 +334,12 @@ def impshapeCase (fields : List String) : String :=
   | .panic => "panic"
   | _ => "nopanic"
 
+/-- `prefixed 61620a,63` : the write calls (hex) of one task; output: the payloads handed to the sink -/
+def prefixedCase (fields : List String) : String :=
+  let chunks : List (List Nat) := ((fields.getD 0 "").splitOn ",").map fun h => hexBytes h.toList
+  let toks := chunks.flatMap Out.tokens
+  ",".intercalate (toks.map fun t => hexStr (t.map Char.ofNat))
+
 def handle (line0 : String) : String :=
   if line0.startsWith "args " then argsCase ((line0.dropEndWhile (· == '\n')).toString) else
   let line := line0.trimAscii.toString
@@ -353,6 +360,7 @@ def handle (line0 : String) : String :=
   | "refs" :: rest => refsCase rest
   | "envfile" :: rest => envfileCase rest
   | "impshape" :: rest => impshapeCase rest
+  | "prefixed" :: rest => prefixedCase rest
   | _ => "bad-op"
 
 partial def loop (h : IO.FS.Stream) (out : IO.FS.Stream) : IO Unit := do
